@@ -2,7 +2,7 @@
 """Regenerate /verif/MANIFEST.json from tools/table.py (keeps it valid at all times)."""
 import json, os, sys
 sys.path.insert(0, os.path.dirname(os.path.abspath(__file__)))
-from table import PROPS, NOT_APPLICABLE
+from table import PROPS, NOT_APPLICABLE, CLAIMED
 
 VERIF = os.path.dirname(os.path.dirname(os.path.abspath(__file__)))
 BASELINE = ("cd /repo && cargo nextest run --workspace --no-fail-fast --tool-config-file "
@@ -24,7 +24,7 @@ m = {
     "engines": [{
         "name": "kani-cbmc",
         "path": "/verif/check",
-        "serves_properties": sorted(PROPS.keys()),
+        "serves_properties": CLAIMED,
         "kind_free_text": "Kani 0.68 -> CBMC 6.11 -> CaDiCaL: bounded symbolic model checking of the compiled RustDDS functions; native replay of counterexamples",
     }],
     "checks": [],
@@ -34,7 +34,7 @@ m = {
               "(discharged < obligations). The only commits to /repo are `fix:` commits for genuine defects, listed "
               "in /verif/known_findings.json."),
 }
-for pid in sorted(PROPS):
+for pid in CLAIMED:
     s = PROPS[pid]
     m["checks"].append({
         "property_id": pid,
